@@ -108,6 +108,15 @@ def safe_eval(e: ast.AST, env: dict):
     if isinstance(e, ast.Call) and call_name(e) in ('min', 'max', 'ceil', 'int') and not e.keywords:
         args = [safe_eval(a, env) for a in e.args]
         return {'min': min, 'max': max, 'ceil': lambda x: math.ceil(x), 'int': lambda x: int(x)}[call_name(e)](*args)
+    if isinstance(e, ast.Call) and call_name(e) == 'range' and not e.keywords:
+        return range(*[safe_eval(a, env) for a in e.args])
+    if isinstance(e, ast.Call) and call_name(e) in ('list', 'reversed', 'tuple') and len(e.args) == 1:
+        v = safe_eval(e.args[0], env)
+        return list(reversed(v)) if call_name(e) == 'reversed' else list(v)
+    if isinstance(e, ast.Subscript) and isinstance(e.slice, ast.Slice):
+        v = safe_eval(e.value, env)
+        sl = slice(*[None if x is None else safe_eval(x, env) for x in (e.slice.lower, e.slice.upper, e.slice.step)])
+        return v[sl]
     raise AnalysisError(f'R-C01-OBFUSC: expression `{unparse(e)}` is outside the constant-folding fragment')
 
 
@@ -425,7 +434,9 @@ def run(eng: Engine, ck: Check):
     for p, dflt in zip(a.args[len(a.args) - len(a.defaults):], a.defaults):
         if p.arg == 'rot_bits':
             rot_default = const(dflt)
+    PROTO_ROT = 31       # SoulSeek obfuscation: the key is rotated right by 31 bits (= left by 1) before each 4-byte block, period 32
     enc_rot = None
+    delegates = any(call_name(x) == 'decode' for x in calls_in(oe.node))
     for x in calls_in(oe.node):
         if call_name(x) == 'rotate_key':
             enc_rot = const(kw(x, 'rot_bits')) if kw(x, 'rot_bits') is not None else rot_default
@@ -433,37 +444,40 @@ def run(eng: Engine, ck: Check):
             per_block = any(pol and unparse(e).replace(' ', '') == 'idx%KEY_SIZE==0' for e, pol, _ in blk)
             ck.ob('R-C01-OBFUSC', oe, x, 'the encoder rotates the key once per KEY_SIZE bytes, before using it', per_block, f'{[unparse(e) for e, _, _ in blk]}',
                   construct='encoder rotation cadence')
+    if enc_rot is None and not delegates:
+        raise AnalysisError('R-C01-OBFUSC: obfuscation.encode neither rotates the key itself nor delegates to decode: idiom not recognised')
     rksrc = unparse(rk.node)
     ok = 'key_i >> rot_bits | key_i << 32 - rot_bits & 4294967295' in rksrc and "int.from_bytes(key, 'little')" in rksrc and "to_bytes(4, 'little')" in rksrc
     ck.ob('R-C01-OBFUSC', rk, rk.node, 'rotate_key is a 32-bit rotate right on the little-endian key', ok, '', construct='rotate_key')
-    ck.ob('R-C01-OBFUSC', oe, oe.node, 'KEY_SIZE is 4 and the encoder rotates by 31 bits per block (= rotate left by 1)', ks == 4 and enc_rot == 31, f'KEY_SIZE={ks}, rot={enc_rot}',
-          construct='encoder constants')
-    loops = [n for n in walk_local(od.node) if isinstance(n, ast.For) and isinstance(n.iter, ast.Call) and call_name(n.iter) == 'range' and
-             any(call_name(x) == 'rotate_key' for st in n.body for x in calls_in(st))]
+    ck.ob('R-C01-OBFUSC', oe, oe.node, 'KEY_SIZE is 4 and the encoder rotates by 31 bits per block (= rotate left by 1), or applies the decoder\'s key stream',
+          ks == 4 and (enc_rot == PROTO_ROT or (enc_rot is None and delegates)), f'KEY_SIZE={ks}, rot={enc_rot}, delegates to decode: {delegates}', construct='encoder constants')
+    loops = [n for n in walk_local(od.node) if isinstance(n, ast.For) and any(call_name(x) == 'rotate_key' for st in n.body for x in calls_in(st))]
     ka = single_assignments(od).get('key_amount')
-    if len(loops) != 1 or ka is None or ks is None or enc_rot is None:
+    if len(loops) != 1 or ks is None:
         raise AnalysisError('R-C01-OBFUSC: key table loop of obfuscation.decode not recognised')
+    rot_arg = next((kw(x, 'rot_bits') or (x.args[1] if len(x.args) > 1 else None) for st in loops[0].body for x in calls_in(st) if call_name(x) == 'rotate_key'), None)
+    if rot_arg is None or unparse(rot_arg) != unparse(loops[0].target):
+        raise AnalysisError('R-C01-OBFUSC: the loop variable is not the rotation amount: idiom not recognised')
     rng = loops[0].iter
     bad = []
     for msg_len in list(range(1, 140)) + [255, 256, 257, 1000]:
         env = {'message_len': msg_len, 'KEY_SIZE': ks}
-        k = safe_eval(ka, env)
-        env['key_amount'] = k
-        args = [safe_eval(x, env) for x in rng.args]
-        table = list(range(*args))
+        if ka is not None:
+            env['key_amount'] = safe_eval(ka, env)
+        table = list(safe_eval(rng, env))
         blocks = math.ceil(msg_len / ks)
-        # encoder: block j (0-based) uses the key rotated (j+1) times by enc_rot -> total right-rotation (j+1)*enc_rot mod 32
-        want = [((j + 1) * enc_rot) % 32 for j in range(min(blocks, 32))]
-        period_ok = all(table[j % len(table)] % 32 == ((j + 1) * enc_rot) % 32 for j in range(blocks)) if table else False
-        if table != want or not period_ok:
+        # protocol: block j (0-based) is XOR-ed with the key rotated right (j+1)*31 mod 32 bits
+        want = [((j + 1) * PROTO_ROT) % 32 for j in range(min(blocks, 32))]
+        stream_ok = bool(table) and all(table[j % len(table)] % 32 == ((j + 1) * PROTO_ROT) % 32 for j in range(blocks))
+        if not stream_ok:
             bad.append((msg_len, table[:3] + ['...'] + table[-2:], len(table), len(want)))
-    ck.ob('R-C01-OBFUSC', od, loops[0], 'for every payload length the decoder\'s key table `range(...)` is exactly the encoder\'s rotation sequence '
-          '(31, 30, ..., 0 then repeating with period 32)', not bad,
+    ck.ob('R-C01-OBFUSC', od, loops[0], 'for every payload length the decoder\'s key table is the protocol\'s rotation sequence '
+          '(31, 30, ..., 0, repeating with period 32 = 128 bytes)', not bad,
           f'first mismatches (payload length, decoder table, its size, expected size): {bad[:3]}', construct='decoder key table == encoder sequence')
     idx = [n for n in walk_local(od.node) if isinstance(n, ast.AugAssign) and isinstance(n.op, ast.BitXor)]
     ok = len(idx) == 1 and unparse(idx[0]).replace(' ', '') == 'message[idx]^=full_key[idx%full_key_len]'
     ck.ob('R-C01-OBFUSC', od, od.node, 'the decoder XORs byte i with key-table byte i mod table length', ok, '', construct='decoder xor')
-    ok = "key[idx % KEY_SIZE] ^ byt" in unparse(oe.node) and 'orig_key + bytes(enc_message)' in unparse(oe.node)
+    ok = ("key[idx % KEY_SIZE] ^ byt" in unparse(oe.node) and 'orig_key + bytes(enc_message)' in unparse(oe.node)) or (enc_rot is None and delegates)
     ck.ob('R-C01-OBFUSC', oe, oe.node, 'the encoder XORs byte i with key byte i mod KEY_SIZE and prepends the ORIGINAL key', ok, '', construct='encoder xor')
     ok = 'key = data[:KEY_SIZE]' in unparse(od.node) and 'data[KEY_SIZE:]' in unparse(od.node)
     ck.ob('R-C01-OBFUSC', od, od.node, 'the decoder takes the key from the first KEY_SIZE bytes', ok, '', construct='decoder key position')
